@@ -397,26 +397,18 @@ def rule_Q(ctx):
     f0 = _m(ctx, '__getCell')
     CS, LS = 3, 2
 
-    class Coord(orders.PyStub):
-        isa = ('ENUCoords',)
+    # positions and observations are the repository's own ENUCoords / Obs objects
+    fn = absint.funcs(ctx, 'tracklib.core.spatial_index', {})
+    _EN = absint.classref(ctx, 'tracklib.core.obs_coords.ENUCoords', fn)
 
-        def __init__(self, x, y, z=0):
-            self.x, self.y = x, y
+    def Coord(x, y, z=0):
+        c_ = _EN(x, y, z)
+        c_.x, c_.y = x, y               # (kept for the checker's own reading; the interpreted code sees the record)
+        return c_
 
-        def getX(self):
-            return self.x
+    def ObsS(c):
+        return absint.real_obs(ctx, fn, c)
 
-        def getY(self):
-            return self.y
-
-        def __repr__(self):
-            return '(%g, %g)' % (self.x, self.y)
-
-    class ObsS(orders.PyStub):
-        def __init__(self, c):
-            self.position = c
-
-    fn = absint.funcs(ctx, 'tracklib.core.spatial_index', {'ENUCoords': lambda x, y, z=0: Coord(x, y), 'GeoCoords': lambda x, y, z=0: Coord(x, y)})
     _T = absint.classref(ctx, 'tracklib.core.track.Track', fn)
 
     def TrackS(coords):
@@ -606,14 +598,14 @@ def rule_Q(ctx):
                 continue
             for num, t in enumerate(trs):
                 for o_ in t.obs:
-                    c = ix.call('__getCell', o_.position)
+                    c = ix.call('__getCell', o_.fields['position'])
                     if c is None:
                         cell = None
                     else:
                         cell = (min(math.floor(c[0]), F['csize'] - 1), min(math.floor(c[1]), F['lsize'] - 1))
                     if (cell is None or num not in F['grid'][cell[0]][cell[1]]) and not any(k == 'initial' for k, _ in found):
                         found.append(('initial', ('at construction feature number n of the collection is registered under n in the cells of its vertices (extreme vertices lie on the border of the extent)',
-                                                  dict(case, **{'feature': num, 'vertex': repr(o_.position), 'cell': cell}), '__init__')))
+                                                  dict(case, **{'feature': num, 'vertex': [o_.fields['position'].x, o_.fields['position'].y], 'cell': cell}), '__init__')))
     except (IndexError, KeyError, TypeError, AttributeError, ZeroDivisionError) as ex:
         found.append(('fails', ('construction does not fail', {'exception': '%s: %s' % (type(ex).__name__, ex)}, '__init__')))
     for key, (desc, wit, method) in found:
@@ -635,26 +627,18 @@ def rule_S(ctx):
     from .. import absint, orders
     f0 = _m(ctx, '__getCell')
 
-    class Coord(orders.PyStub):
-        isa = ('ENUCoords',)
+    # positions and observations are the repository's own ENUCoords / Obs objects
+    fn = absint.funcs(ctx, 'tracklib.core.spatial_index', {})
+    _EN = absint.classref(ctx, 'tracklib.core.obs_coords.ENUCoords', fn)
 
-        def __init__(self, x, y, z=0):
-            self.x, self.y = x, y
+    def Coord(x, y, z=0):
+        c_ = _EN(x, y, z)
+        c_.x, c_.y = x, y               # (kept for the checker's own reading; the interpreted code sees the record)
+        return c_
 
-        def getX(self):
-            return self.x
+    def ObsS(c):
+        return absint.real_obs(ctx, fn, c)
 
-        def getY(self):
-            return self.y
-
-        def __repr__(self):
-            return '(%g, %g)' % (self.x, self.y)
-
-    class ObsS(orders.PyStub):
-        def __init__(self, c):
-            self.position = c
-
-    fn = absint.funcs(ctx, 'tracklib.core.spatial_index', {'ENUCoords': lambda x, y, z=0: Coord(x, y), 'GeoCoords': lambda x, y, z=0: Coord(x, y)})
     _T = absint.classref(ctx, 'tracklib.core.track.Track', fn)
 
     def TrackS(coords):
@@ -742,6 +726,34 @@ def rule_S(ctx):
                                                    dict(shape, tracks=[lname, other[0]], **{'cells without their feature': miss2})))
         except (IndexError, KeyError, TypeError, AttributeError, ZeroDivisionError, orders.Raised) as ex:
             found.setdefault('fails', ('request', 'registration and queries do not fail inside the extent', dict(shape, exception='%s: %s' % (type(ex).__name__, ex))))
+    # special geometries on a 3 x 3 grid of unit cells: registered, then found again by a point query taken on them
+    try:
+        specials = {'a parked vehicle (all fixes at the same place)': [(1.5, 1.5)] * 3,
+                    'a parked vehicle on a cell corner': [(1.0, 2.0)] * 2,
+                    'a segment lying on a vertical grid line, inside one row': [(1.0, 1.2), (1.0, 1.8)],
+                    'a segment lying on a horizontal grid line, inside one column': [(0.2, 2.0), (0.8, 2.0)],
+                    'a segment lying on a vertical grid line, across the rows': [(2.0, 0.3), (2.0, 2.6)],
+                    'a segment lying on a horizontal grid line, across the columns': [(0.4, 1.0), (2.7, 1.0)],
+                    'two collinear horizontal legs inside one cell': [(1.2, 1.5), (1.5, 1.5), (1.8, 1.5)]}
+        CS = LS = 3
+        ENs = absint.classref(ctx, 'tracklib.core.obs_coords.ENUCoords', fn)       # the repository's own positions (equality with a tolerance)
+        for sname, vs in specials.items():
+            ix = _make_index(ctx, fn, CS, LS, [[[] for _ in range(LS)] for _ in range(CS)])
+            n_calls += 1
+            ix.call('addFeature', TrackS([ENs(float(v_[0]), float(v_[1]), 0.0) for v_ in vs]), 4)
+            probes = list(vs) + [((a_[0] + b_[0]) / 2.0, (a_[1] + b_[1]) / 2.0) for a_, b_ in zip(vs, vs[1:])]
+            for q_ in probes:
+                n_calls += 1
+                got = ix.call('request', Coord(*q_))
+                if not isinstance(got, (list, set, tuple)) or 4 not in got:
+                    found.setdefault('special', ('addFeature', 'a feature is found again by a point query taken on it, whatever its geometry (a single place, a segment lying on a grid line)',
+                                                 {'grid (columns, rows)': [CS, LS], 'feature': sname, 'vertices': [list(v_) for v_ in vs], 'query point': list(q_), 'returned': sorted(got) if isinstance(got, (list, set, tuple)) else repr(got),
+                                                  'cells holding the feature': sorted((i_, j_) for i_ in range(CS) for j_ in range(LS) if 4 in ix.fields['grid'][i_][j_])}))
+                    break
+    except orders.Unsupported as ex:
+        raise shape_error('SpatialIndex.addFeature / request not interpretable: %s' % ex, f0.loc())
+    except (IndexError, KeyError, TypeError, AttributeError, ZeroDivisionError, orders.Raised) as ex:
+        found.setdefault('fails', ('addFeature', 'registration and queries do not fail inside the extent', {'feature': 'special geometries', 'exception': '%s: %s' % (type(ex).__name__, ex)}))
     # sub-millimetre scale (cells of 0.1 mm, positions that are the repository's own ENUCoords, whose equality has a 0.1 mm tolerance):
     # a track whose fixes are 0.07 mm apart is registered in every cell it crosses, and found again
     try:
